@@ -65,6 +65,9 @@ pub struct C01Case {
     plan: Plan,
     sched: Option<u64>,
     seed: u32,
+    /// both nodes sign with randomised ECDSA (as the OpenSSL / MbedTLS back-ends do)
+    #[serde(default)]
+    rand_sign: bool,
 }
 
 fn cat() -> impl Strategy<Value = u32> {
@@ -108,9 +111,10 @@ pub fn case_strategy() -> impl Strategy<Value = C01Case> {
         prop_oneof![2 => Just(Plan::default()), 2 => adv::plan(8)],
         prop_oneof![1 => Just(None), 3 => any::<u64>().prop_map(Some)],
         any::<u32>(),
+        any::<bool>(),
     )
         .prop_map(
-            |(mut fabrics, target, same_node_ids, warm, mutation, plan, sched, seed)| {
+            |(mut fabrics, target, same_node_ids, warm, mutation, plan, sched, seed, rand_sign)| {
                 if !fabrics.iter().any(|f| f.on_ctrl) {
                     fabrics[0].on_ctrl = true;
                 }
@@ -123,6 +127,7 @@ pub fn case_strategy() -> impl Strategy<Value = C01Case> {
                     plan,
                     sched,
                     seed,
+                    rand_sign,
                 }
             },
         )
@@ -206,8 +211,11 @@ pub fn check_with(
 ) -> Case {
     vh::sim::reset_universe();
     let net = Net::new(2);
-    let cd = mk_crypto(case.seed);
-    let cc = mk_crypto(case.seed.wrapping_mul(0x9E37_79B9).wrapping_add(99));
+    let cd = vh::sim::rsign::RandomisedSigning::new(mk_crypto(case.seed), case.rand_sign);
+    let cc = vh::sim::rsign::RandomisedSigning::new(
+        mk_crypto(case.seed.wrapping_mul(0x9E37_79B9).wrapping_add(99)),
+        case.rand_sign,
+    );
     let cgen = mk_crypto(case.seed ^ 0x0BAD_5EED);
     let device = new_matter(5540);
     let ctrl = new_matter(5541);
